@@ -41,6 +41,19 @@ func (e *Engine) callExternal(fn *types.Func, recv Value, args []Value, cx *ast.
 		return VTerm{T: mkMin(real(0), real(1)), Typ: f64}
 	case "math.Pow":
 		x, y := real(0), real(1)
+		if x.Op == "real" && y.Op == "real" && y.Rat.IsInt() && y.Rat.Num().IsInt64() && x.Rat.Sign() != 0 {
+			// constant folding: rational base, small integer exponent
+			if n := y.Rat.Num().Int64(); n >= -12 && n <= 12 {
+				r := big.NewRat(1, 1)
+				for i := int64(0); i < n || i < -n; i++ {
+					r.Mul(r, x.Rat)
+				}
+				if n < 0 {
+					r.Inv(r)
+				}
+				return VTerm{T: mkRat(r), Typ: f64}
+			}
+		}
 		e.notes["assumed external: math.Pow(x,y) = powr(x,y) with powr(x,2)=x*x, powr(x,-1)=1/x, powr(x,1)=x, other exponents uninterpreted"] = true
 		return VTerm{T: mkApp("powr", SReal, x, y), Typ: f64}
 	case "math.Floor":
